@@ -75,7 +75,7 @@ func init() {
 			"that the bodies of kmpDeduplicate, splitRing, dedupeInnersOuters, matchInnersToPolygons, sortPolyIdxsByOuterAreaDesc, ringContains neither panic nor loop: outside the verifier's reach (append into a re-sliced ring, ordered/sorted map libraries), only the bounded stand-ins ring-assembly-small-alphabet and snap-total-small. Their helpers kmpTable, kmpSearch, kmpSearchAll, RemoveSequences, ReverseClone, DeleteFromSliceByIndex, LastMatch, ringsAreEqual, ensureCorrectWindingOrder, outersToPolygons ARE proved safe and terminating",
 			"time bound (polynomial in the vertex count): termination of every loop of the verified functions is proved by decreases clauses, no complexity statement",
 			"tile matrices whose pixel level exceeds 32: known finding F6 (excluded by the precondition of SnapPolygon's contract)"},
-		Assumptions: []string{"preconditions of SnapPolygon's contract (ids in [0,1000], indexable tile matrix set, level <= 32, |ordinate| < 2e8, round grid)",
+		Assumptions: []string{"preconditions of SnapPolygon's contract (ids in [0,1000], indexable tile matrix set, level <= 32, |ordinate| < 2e8, bounding box of matrix 0 at least as tall as the grid square)",
 			"trusted leaves ensureCorrectWindingOrder, cleanupNewRing, dedupeInnersOuters, outersToPolygons, matchInnersToPolygons, reverseWindingOrderIfConfigured: only that they return (or panic) without touching the index; callers treat their panic as possible"},
 		Extra: func(cc *checkCtx) *extraResult { return cc.runOverlayTests([]overlayTest{ringAssembly, totalSmall}) },
 		Demos: []findingDemo{{ID: "F6", Src: "f6_level_above_32_test.go", PkgRel: "snap", Run: "^TestGvcFindingF6$"},
